@@ -5,7 +5,8 @@ type Item struct {
 	T    *T     // the complete (top-level) type handed to plenc
 	Base *T     // the type under study
 	Opt  string // tag option on the base's field, when the position is a field
-	Pos  string // top, field, elem, mapval, mapkey, ptrfield
+	Pos  string // top, field, elem, mapval, mapkey, ptrfield, sweep
+	Vals []V    // when non-nil, the values to enumerate for this item (instead of Values(T, level))
 }
 
 var AllLeaves = []Kind{KBool, KInt, KInt8, KInt16, KInt32, KInt64, KUint, KUint8, KUint16, KUint32, KUint64,
@@ -154,7 +155,7 @@ func Place(x *T) []Item {
 // Universe lists every (type, position) item for a tier. Items whose complete
 // type the model rejects are dropped (C08 studies those).
 func Universe(tier string) []Item {
-	var out []Item
+	out := SizeSweep(tier)
 	seen := map[string]bool{}
 	for _, b := range Bases(tier) {
 		for _, it := range Place(b) {
@@ -224,3 +225,109 @@ func NamedContainers() []*T {
 // NamedLeafNames maps a basic kind to the registered name of its named twin (package gen).
 var NamedLeafNames = map[Kind]string{KBool: "gen.NBool", KInt: "gen.NInt", KInt8: "gen.NInt8", KInt16: "gen.NInt16", KInt32: "gen.NInt32", KInt64: "gen.NInt64",
 	KUint: "gen.NUint", KUint8: "gen.NUint8", KUint16: "gen.NUint16", KUint32: "gen.NUint32", KUint64: "gen.NUint64", KFloat32: "gen.NFloat32", KFloat64: "gen.NFloat64", KString: "gen.NString"}
+
+// SweepLengths are the container / string lengths of the size sweep: every length up to 34
+// (slice readers grow at 8, 16, 32), and the neighbourhoods of the powers of two up to 1024
+// (element-count and byte-length prefixes change width at 128; multiples of 128 have a
+// first varint byte of 0x80), for strings and byte slices also 2048 and 16384 (three-byte prefix).
+func SweepLengths(tier string, long bool) []int {
+	var ls []int
+	for i := 0; i <= 34; i++ {
+		ls = append(ls, i)
+	}
+	for _, p := range []int{64, 128, 192, 256, 384, 512, 1024} {
+		ls = append(ls, p-1, p, p+1)
+	}
+	if long {
+		ls = append(ls, 2047, 2048, 2049, 16383, 16384, 16385)
+		if tier == "thorough" {
+			ls = append(ls, 65535, 65536, 1<<21-1, 1<<21)
+		}
+	}
+	return ls
+}
+
+// SizeSweep is the size dimension of the universe: one item per container shape, nested in a
+// struct inside a struct (so that the enclosing length prefixes cross their boundaries too),
+// with one value per length, elements all distinct.
+func SizeSweep(tier string) []Item {
+	L := Leaf
+	type shape struct {
+		t    *T
+		opt  string
+		long bool
+		elem func(i int) V // slice element / map key+value pair (E: k, v) / nil for string-like
+	}
+	istr := func(i int) V {
+		if i%7 == 3 {
+			return V{S: ""}
+		}
+		return V{S: "e" + itoa(i)}
+	}
+	s0 := func(i int) V { return V{E: []V{{U: uint64(int64(i*37 - 500))}, istr(i)}} }
+	pair := func(k, v V) V { return V{E: []V{k, v}} }
+	shapes := []shape{
+		{t: L(KString), long: true}, {t: L(KBytes), long: true},
+		{t: Slice(L(KInt)), elem: func(i int) V { return V{U: uint64(int64(i*37 - 500))} }},
+		{t: Slice(L(KUint16)), elem: func(i int) V { return V{U: uint64(i * 61 % 65536)} }},
+		{t: Slice(L(KFloat32)), elem: func(i int) V { return V{U: uint64(0x3f800000 + i)} }},
+		{t: Slice(L(KFloat64)), elem: func(i int) V { return V{U: 0x3ff0000000000000 + uint64(i)} }},
+		{t: Slice(L(KBool)), elem: func(i int) V { return V{U: uint64(i % 2)} }},
+		{t: Slice(L(KString)), elem: istr}, {t: Slice(L(KString)), opt: "proto", elem: istr},
+		{t: Slice(L(KBytes)), elem: func(i int) V { return V{S: "b" + itoa(i)} }},
+		{t: Slice(S0()), elem: s0}, {t: Slice(S0()), opt: "proto", elem: s0},
+		{t: Slice(Ptr(S0())), elem: func(i int) V { return V{E: []V{s0(i)}} }},
+		{t: Slice(Ptr(L(KInt))), elem: func(i int) V { return V{E: []V{{U: uint64(i + 1)}}} }},
+		{t: Slice(Slice(L(KUint))), elem: func(i int) V { return V{E: []V{{U: uint64(i)}, {U: uint64(i * 300)}}} }},
+		{t: Slice(L(KTime)), elem: func(i int) V { return V{Sec: int64(i) * 1000003, Ns: int32(i * 7919)} }},
+		{t: Map(L(KString), L(KInt)), elem: func(i int) V { return pair(V{S: "k" + itoa(i)}, V{U: uint64(i)}) }},
+		{t: Map(L(KString), L(KInt)), opt: "proto", elem: func(i int) V { return pair(V{S: "k" + itoa(i)}, V{U: uint64(i)}) }},
+		{t: Map(L(KInt), L(KString)), elem: func(i int) V { return pair(V{U: uint64(int64(i - 3))}, istr(i)) }},
+		{t: Map(S0K(), L(KString)), elem: func(i int) V { return pair(V{E: []V{{U: uint64(i)}, {U: uint64(i % 3)}}}, istr(i)) }},
+		{t: Map(S0K(), L(KString)), opt: "proto", elem: func(i int) V { return pair(V{E: []V{{U: uint64(i)}, {U: uint64(i % 3)}}}, istr(i)) }},
+		{t: Map(L(KString), S0()), elem: func(i int) V { return pair(V{S: "k" + itoa(i)}, s0(i)) }},
+		{t: Map(L(KString), Ptr(L(KInt))), elem: func(i int) V { return pair(V{S: "k" + itoa(i)}, V{E: []V{{U: uint64(i % 2)}}}) }},
+	}
+	var out []Item
+	for _, sh := range shapes {
+		inner := Struct(FldO(1, sh.opt, sh.t), F{Name: "Z", Index: 9, T: L(KInt)})
+		top := Struct(Fld(1, inner), F{Name: "Z", Index: 9, T: L(KInt)})
+		var vals []V
+		for _, n := range SweepLengths(tier, sh.long) {
+			var x V
+			switch {
+			case sh.elem == nil:
+				b := make([]byte, n)
+				for i := range b {
+					b[i] = byte('a' + i%23)
+				}
+				x = V{S: string(b)}
+			case sh.t.K == KMap:
+				x = V{E: make([]V, 0, 2*n)}
+				for i := 0; i < n; i++ {
+					kv := sh.elem(i)
+					x.E = append(x.E, kv.E[0], kv.E[1])
+				}
+			default:
+				x = V{E: make([]V, n)}
+				for i := range x.E {
+					x.E[i] = sh.elem(i)
+				}
+			}
+			vals = append(vals, V{E: []V{{E: []V{x, {U: 7}}}, {U: 9}}})
+		}
+		out = append(out, Item{T: top, Base: sh.t, Opt: sh.opt, Pos: "sweep", Vals: vals})
+	}
+	return out
+}
+
+func itoa(i int) string {
+	if i == 0 {
+		return "0"
+	}
+	var b []byte
+	for ; i > 0; i /= 10 {
+		b = append([]byte{byte('0' + i%10)}, b...)
+	}
+	return string(b)
+}
